@@ -208,11 +208,13 @@ def _no_nbsp_ref(e):
 
 @st.composite
 def xml_cases(draw):
+    from vf.pre import Pre
+    pre = Pre(draw, 24)     # where the xsi attributes go (vf/pre.py)
     e, decl = draw(xmlgen.document(NAMES, prefixes=(), qual_prefixes=()))
     e.setdefault("d", {})["xsi"] = XSI
     for el in xmlgen.elements(e):
-        if draw(st.integers(0, 4)) == 0:
-            el.setdefault("q", []).append(["xsi", draw(st.sampled_from(["type", "nil"])), draw(xmlgen._attr_text)])
+        if pre.chance(4):
+            el.setdefault("q", []).append(["xsi", pre.pick(["type", "nil", "schemaLocation"]), draw(xmlgen._attr_text)])
     return _no_nbsp_ref(e), decl
 
 
